@@ -171,7 +171,7 @@ func c10History(cc *run.Case, kind string, nops, hidx int) bool {
 	}
 	model := newRepoModel()
 	// names incl. ones that end in the letters of the ".csv" suffix and contain dots
-	pool := []string{"aapl", "brk-b", "x", "goog", "vics", "cvs", "msft.v", "s", "abc.csv"}
+	pool := []string{"aapl", "brk-b", "x", "goog", "vics", "cvs", "msft.v", "s", "abc.csv", "^gspc", "brk b", "50%off", "eur=usd"}
 	perm := r.Perm(len(pool))
 	names := make([]string, 0, 4)
 	for _, i := range perm[:r.Range(3, 4)] {
@@ -447,6 +447,45 @@ func c10(ctx *run.Ctx) {
 		}
 	}
 	c10Concurrent(ctx, ctx.Pick(6, 150))
+	// A long history: more snapshots than any block or buffer an implementation
+	// might carve rows out of, read into a slice that keeps every row.
+	ctx.Case("filesystem/long-history", func(cc *run.Case) {
+		for _, kind := range []string{"filesystem", "memory", "sql"} {
+			repo, cleanup, err := newRepo(kind)
+			if err != nil {
+				cc.Inconclusive(err.Error())
+				return
+			}
+			n := 1300
+			want := make([]asset.Snapshot, n)
+			ptrs := make([]*asset.Snapshot, n)
+			for i := range want {
+				want[i] = asset.Snapshot{Date: day0.AddDate(0, 0, i), Open: float64(i) + 0.5, High: float64(i) + 2, Low: float64(i), Close: float64(i) + 1, Volume: float64(1000 + i)}
+				c := want[i]
+				ptrs[i] = &c
+			}
+			cc.Desc(map[string]any{"repository": kind, "snapshots": n})
+			if err := repo.Append("long", helper.SliceToChan(ptrs)); err != nil {
+				cc.Viol("", kind+" repository: Append of 1300 snapshots failed: "+err.Error(), nil)
+				cleanup()
+				return
+			}
+			c, err := repo.Get("long")
+			if err != nil {
+				cc.Viol("", kind+" repository: Get after an Append of 1300 snapshots failed: "+err.Error(), nil)
+				cleanup()
+				return
+			}
+			if msg := sameSnaps(helper.ChanToSlice(c), want); msg != "" {
+				cc.Viol("", fmt.Sprintf("%s repository: 1300 snapshots read into a slice: %s", kind, msg), nil)
+				cleanup()
+				return
+			}
+			cleanup()
+			cc.Count("ops:"+kind, 2)
+		}
+		cc.Distinct("long-history")
+	})
 	// A device that accepts no data: an Append that stored nothing must not
 	// return as if it had (the append would be invisible to every later read).
 	ctx.Case("filesystem/write-fault", func(cc *run.Case) {
